@@ -286,10 +286,37 @@ pub fn c12(run: &Run) -> (u64, u64) {
             (Err((k, d)), _, _) | (_, Err((k, d)), _) | (_, _, Err((k, d))) => run.violation(&k, format!("{k}|{}", a.join(" ; ")), case(&a), d),
         }
     });
+    // the engine's own bench (87 positions, depth 10): node totals of two processes must agree
+    if !run.quick() {
+        let bin2 = bin.clone();
+        let h = std::thread::spawn(move || bench_nodes(&bin2));
+        let b1 = bench_nodes(&bin);
+        let b2 = h.join().unwrap_or(Err("bench thread panicked".into()));
+        match (b1, b2) {
+            (Ok(x), Ok(y)) => {
+                run.note(format!("bench node totals in two optimised processes: {x} and {y}"));
+                if x != y {
+                    run.violation("blackbox-not-deterministic", "blackbox-bench".into(), case(&["bench".to_string()]), format!("bench reports {x} nodes in one process and {y} in another"));
+                }
+            }
+            (Err(m), _) | (_, Err(m)) => run.violation("blackbox-bench-failed", "blackbox-bench-failed".into(), case(&["bench".to_string()]), m),
+        }
+    }
     let a = n.load(Ordering::Relaxed);
     run.family("E7-PROCESSES", "18 scripts (earlier position, ucinewgame, optional new position, go depth 4/7), each in two optimised processes and against a freshly started process", a, a * 3, true, "address-space and process independence");
     *run.traces_validated.lock().unwrap() += a * 3;
     (a, a * 3)
+}
+
+fn bench_nodes(bin: &str) -> Result<String, String> {
+    let mut e = Engine::start(bin)?;
+    e.send("bench")?;
+    loop {
+        let v = e.wait_for("", Duration::from_secs(900))?;
+        if let Some(l) = v.iter().find(|l| l.contains(" nodes ") && l.contains(" nps")) {
+            return Ok(l.split_whitespace().next().unwrap_or("").to_string());
+        }
+    }
 }
 
 pub fn replay(run: &Run, case: &J) {
